@@ -33,6 +33,9 @@ func init() {
 type randSpy struct {
 	inner   io.Reader
 	fail    atomic.Int64 // when > 0, every Read fails after delivering fail-1 bytes
+	echo    atomic.Int64 // when > 0, every second 16-byte read inside uuid.NewV4 starts with the first `echo` bytes of the previous one
+	last    [16]byte     // (echo mode, single goroutine)
+	echoN   int
 	chunk   atomic.Int64 // when > 0, deliver at most this many bytes per Read (a legal io.Reader behaviour)
 	stream  []byte       // in chunk mode: every byte delivered inside uuid.NewV4, in order (single goroutine)
 	mu      sync.Mutex
@@ -82,6 +85,17 @@ func (s *randSpy) Read(p []byte) (int, error) {
 		s.stream = append(s.stream, p[:n]...)
 		s.mu.Unlock()
 		return n, err
+	}
+	if e := int(s.echo.Load()); e > 0 && in && n == 16 && len(p) == 16 {
+		// a possible (if unlikely) outcome of a true random source: this draw shares its first bytes with the last one
+		s.echoN++
+		if s.echoN%2 == 0 {
+			copy(p[:e], s.last[:e])
+			if p[15] == s.last[15] {
+				p[15] ^= 0x01 // the draws differ as a whole: only a prefix is shared
+			}
+		}
+		copy(s.last[:], p)
 	}
 	if in && n == 16 && len(p) == 16 {
 		var b [16]byte
@@ -191,6 +205,7 @@ func runC18(c *mon.Ctx) {
 				if ksp == nil || i%(G*50) == g {
 					ksp = NewKeyedSP(now, KeyCfg{EncField: true, SignSetter: true, ECSetter: true})
 					ksp.SP.SignAuthnRequests = true
+					ksp.Clk.Wobble.Store((i/(G*50))%2 == 0) // a wall clock that steps back and forth: identifiers do not depend on it
 					if (i/(G*50))%3 == 1 {
 						// an application that also signs its own documents with the provider's signing context tunes it:
 						// the messages still carry their identifier in the schema's ID attribute
@@ -299,6 +314,17 @@ func runC18(c *mon.Ctx) {
 		}
 	}
 	spy.chunk.Store(0)
+	// phase 4b: draws that share their first 1 / 4 / 8 / 15 bytes with the draw before (all different as a whole): each
+	// identifier is still a well-formed version-4 UUID made of exactly the 16 bytes read for it
+	var echoIDs []string
+	for _, e := range []int64{4, 1, 8, 15, 4} {
+		spy.echo.Store(e)
+		for i := 0; i < c.N(400, 4000); i++ {
+			echoIDs = append(echoIDs, uuid.NewV4().String())
+		}
+	}
+	spy.echo.Store(0)
+
 	// phase 5: the entropy source fails (nothing delivered, or a partial read, then an error). No message may be
 	// emitted then: its identifier could not hold 122 fresh random bits. An error or a panic is the only honest outcome.
 	type emitted struct{ kind, id string }
@@ -443,6 +469,10 @@ func runC18(c *mon.Ctx) {
 		check(s, true)
 	}
 	c.Count("identifiers_from_copied_providers", int64(len(copyCols[0].ids)))
+	for _, s := range echoIDs {
+		check(s, false)
+	}
+	c.Count("identifiers_from_prefix_sharing_draws", int64(len(echoIDs)))
 	for _, id := range afterFailure {
 		if !strings.HasPrefix(id, "_") {
 			cs.Violation("identifier-format", "message ID %q built around a signing failure does not start with an underscore", id)
